@@ -83,7 +83,7 @@ type awTrace struct {
 var awOwns = map[string]map[string]bool{
 	"C08": {"view": true, "ret": true},
 	"C03": {"issue": true, "ret": true},
-	"C05": {"ret-lock": true}, // what Unlock / ChangePassphrases answer
+	"C05": {"ret-lock": true, "priv-leak": true}, // what Unlock / ChangePassphrases answer; private material accepted as public
 }
 
 // the model's passphrase names
@@ -157,6 +157,21 @@ func (w *awWorld) foreignXpub(tag string) (*hdkeychain.ExtendedKey, error) {
 		}
 	}
 	return k.Neuter()
+}
+
+// foreignXprvPublicVersion returns the PRIVATE account key of foreignXpub(tag) carrying the network's public version.
+func (w *awWorld) foreignXprvPublicVersion(tag string) (*hdkeychain.ExtendedKey, error) {
+	fs := sha256.Sum256([]byte("aw-foreign-account-" + tag))
+	k, err := hdkeychain.NewMaster(fs[:], w.e.params)
+	if err != nil {
+		return nil, err
+	}
+	for _, ix := range []uint32{hdkeychain.HardenedKeyStart + 84, hdkeychain.HardenedKeyStart + 1, hdkeychain.HardenedKeyStart + 3} {
+		if k, err = k.Derive(ix); err != nil {
+			return nil, err
+		}
+	}
+	return k.CloneWithVersion(w.e.params.HDPublicKeyID[:])
 }
 
 func (w *awWorld) expectAddr(s string, a, b, i int) (btcutil.Address, error) {
@@ -433,6 +448,15 @@ func (w *awWorld) apply(st *awStep, a *awArgs, si int) (string, error) {
 		xpub, err := w.foreignXpub(fmt.Sprintf("%s-%d-%d", a.S, a.Num, w.nimp))
 		if err != nil {
 			return "", err
+		}
+		// an account-level extended PRIVATE key dressed up with the public version bytes is not a public key:
+		// it has to be refused, not filed as a watch-only account readable while the wallet is locked
+		if priv, perr := w.foreignXprvPublicVersion(fmt.Sprintf("%s-%d-%d", a.S, a.Num, w.nimp)); perr == nil {
+			_, _, _, ierr := e.w.ImportAccountDryRun(a.Name+"-xprv", priv, 0x0a0b0c0d, &at, 1)
+			w.n++
+			if ierr == nil {
+				w.add("priv-leak", "ImportAccountDryRun accepted an extended private key presented with the public version bytes", "ok", "refused")
+			}
 		}
 		if a.Oc == "commit" {
 			props, err := e.w.ImportAccount(a.Name, xpub, 0x0a0b0c0d, &at)
